@@ -1103,6 +1103,45 @@ func init() {
 				}
 				same("Filter3.Query()", got, all)
 			}
+			if len(out) == 0 {
+				// structural batch calls naming two targets, last: they change the tables
+				var got []ecs.Entity
+				ra, rb := ecs.Rel[u.R0](a[0]), ecs.Rel[u.R1](b[1])
+				m.SetRelationsBatch(f3.Batch(ra, rb), func(e ecs.Entity) { got = append(got, e) }, ecs.Rel[u.R2](c[0]))
+				var moved []ecs.Entity
+				for _, e := range want[[2]int{0, 1}] {
+					if m.GetRelation(e, 2) != c[0] {
+						out = append(out, fmt.Sprintf("world %d: %v is not moved to the new R2 target by SetRelationsBatch over two named targets", wi, e))
+						break
+					}
+				}
+				moved = append(moved, want[[2]int{0, 1}]...)
+				trace = append(trace, "SetRelationsBatch callbacks "+fmt.Sprint(got))
+				got = got[:0]
+				q := f3.Query(ra, rb, ecs.Rel[u.R2](c[0]))
+				for q.Next() {
+					got = append(got, q.Entity())
+				}
+				same("Filter3.Query(R0=a, R1=b, R2=c0) after SetRelationsBatch", got, moved)
+				got = got[:0]
+				ra, rb = ecs.Rel[u.R0](a[1]), ecs.Rel[u.R1](b[0])
+				w.RemoveEntities(f3.Batch(ra, rb), func(e ecs.Entity) { got = append(got, e) })
+				same("RemoveEntities over Filter3.Batch(R0=a, R1=b)", got, want[[2]int{1, 0}])
+				q = f3.Query(ra, rb)
+				if n := q.Count(); n != 0 {
+					out = append(out, fmt.Sprintf("world %d: %d entities left after RemoveEntities over two named targets", wi, n))
+				}
+				q.Close()
+				got = got[:0]
+				q = f3.Query()
+				for q.Next() {
+					got = append(got, q.Entity())
+				}
+				same("Filter3.Query() after the structural batches", got, got)
+				if len(got) != len(all)-len(want[[2]int{1, 0}]) {
+					out = append(out, fmt.Sprintf("world %d: %d entities after the structural batches, expected %d", wi, len(got), len(all)-len(want[[2]int{1, 0}])))
+				}
+			}
 			if wi == 0 {
 				first = trace
 			} else if len(out) == 0 {
